@@ -618,6 +618,13 @@ class Scanner:
                                 continue
                             root, l = lp
                             root = self.expand(root)
+                            if root[0] not in ('loc', 'init'):
+                                # a single-definition alias of (part of) an argument: let bytes = buffer.as_bytes()
+                                try:
+                                    root, off_ = slice_pos(root)
+                                    l = lin_add(l, off_)
+                                except Exception:
+                                    pass
                             ty = None
                             if root[0] in ('loc', 'init'):
                                 ty = strip_ty(self.b.locals[root[1]]['ty'])
@@ -768,8 +775,8 @@ class Scanner:
                         payload = ('fld', ('as', callexpr, 'Some'), '0')
                         p0 = ('fld', payload, '0')
                         p1 = ('fld', payload, '1')
-                        base = (pos[0], lin_add(pos[1], ({p1: 1}, 0)))
-                        alias = {p0: ('U', 0)}
+                        base = (pos[0], lin_add(pos[1], ({self.expand(p1): 1}, 0)))
+                        alias = {p0: ('U', 0), self.expand(p0): ('U', 0)}
                         st.S = {0: ISet.of((0x80, (1 << self.bits) - 1)) if self.bits == 8 else ISet.of((0x80, 0xFFFF))}
                         st.T = []
                         st.d = [1, INF]
@@ -886,7 +893,7 @@ class Scanner:
                 else:
                     r2_, off_root = troot, ({}, 0)
                 if r2_ == base[0] or h == 0:
-                    A_end = lin_add(({} if h == 0 else {('A0',): 1}, 0), off_root)
+                    A_end = lin_add((self.a0(h), 0), off_root)
                     for l in range(b.arg_count + 1, len(b.locals)):
                         if b.locals[l]['ty'] != 'usize' or not (l in p.env or l in inv.get('acc', {})):
                             continue
@@ -916,13 +923,22 @@ class Scanner:
             else:
                 self.problem('a feasible return path from bb%d produced no verdict obligation (path %s)' % (h, blks[:10]))
 
+    def a0(self, h):
+        """the absolute position of the buffer root at the start of a segment: 0 at the entry and whenever the root is an argument
+        that is never re-bound (the scan then keeps an absolute index), an unknown otherwise (the root is re-sliced on the way)"""
+        fr = self.frames.get(h)
+        root = fr[0] if isinstance(fr, tuple) else None
+        if h == 0 or (root is not None and root[0] == 'loc' and 1 <= root[1] <= self.b.arg_count and not self.b.defs.get(root[1])):
+            return {}
+        return {('A0',): 1}
+
     def abs_lin(self, val, h, inv):
         """linear form of a usize expression with loop-carried accumulators replaced by (absolute position of the buffer root at the
         start of this segment) + their invariant offset"""
         l = lin(self.expand(val))
         out = dict(l[0])
         const = l[1]
-        A0 = {} if h == 0 else {('A0',): 1}
+        A0 = self.a0(h)
         for atom in list(out):
             if atom[0] == 'init' and atom[1] in inv.get('acc', {}):
                 c = out.pop(atom)
@@ -1099,7 +1115,7 @@ class Scanner:
             try:
                 inv_ = self.inv.get(self.cur_h) or {}
                 val = self.abs_lin(self.some_payload, self.cur_h, inv_)
-                stop = lin_add(lin_add(({} if self.cur_h == 0 else {('A0',): 1}, 0), base[1]), ({}, pos_k))
+                stop = lin_add(lin_add((self.a0(self.cur_h), 0), base[1]), ({}, pos_k))
                 diff = lin_add(val, stop, -1)
                 dconst = lin_const(diff)
             except Exception:
